@@ -14,6 +14,24 @@ import (
 
 func tr(x int) int { return x*3 + 1 }
 
+// zooReentered recognises the open finding C03/reentry-after-stack-growth in one observation: the callback ran n times
+// (2..6, one per stack growth at the placeholder's relocated stack check), the result is T^n(expected), and the same
+// call made again - the stack has grown by now - runs the callback once and gives T(expected).
+func zooReentered(expected, got int, n int64, again func() (int, int64)) bool {
+	if n < 2 || n > 6 {
+		return false
+	}
+	tn := expected
+	for i := int64(0); i < n; i++ {
+		tn = tr(tn)
+	}
+	if got != tn {
+		return false
+	}
+	r, c := again()
+	return r == tr(expected) && c == 1
+}
+
 //go:noinline
 func descend(d int, f func()) int {
 	var pad [40]byte
@@ -214,6 +232,17 @@ func TestC03Zoo(t *testing.T) {
 				got := tg.Call(a)
 				n := atomic.LoadInt64(&cnt) - c0
 				rep.Eval(1)
+				if got != tr(exp[a]) && zooReentered(exp[a], got, n, func() (int, int64) {
+					c1 := atomic.LoadInt64(&cnt)
+					r := tg.Call(a)
+					return r, atomic.LoadInt64(&cnt) - c1
+				}) {
+					// a collection shrank the stack GrowStack had prepared: the known re-entry, met in this scenario
+					atomic.AddInt64(&reentries, 1)
+					rep.Violate("C03/reentry-after-stack-growth", fmt.Sprintf("%s (%s), shared placeholder: calling the origin placeholder with little stack headroom re-entered the mock (callback ran %d times, result %d = T^%d(%d))", tg.Name, tg.Shape, n, got, n, exp[a]),
+						map[string]interface{}{"target": tg.Name, "shape": tg.Shape, "regime": "shared-placeholder", "step": step})
+					continue
+				}
 				if got != tr(exp[a]) || n != 1 {
 					rep.Violate("C03/origin-wrong-result", fmt.Sprintf("%s (%s) mocked with a placeholder that served %s before (step %d of f,g,f): %s(%d) = %d with %d callback run(s), want %d with 1",
 						tg.Name, tg.Shape, sh[i+(1-step%2)].Name, step, tg.Name, a, got, n, tr(exp[a])), map[string]interface{}{"target": tg.Name, "shape": tg.Shape, "regime": "shared-placeholder", "step": step})
@@ -251,8 +280,35 @@ func TestC03Zoo(t *testing.T) {
 		func() { defer func() { ierr = recover() }(); f.Install(bf, &cf); g.Install(bg, &cg) }()
 		if ierr == nil {
 			for _, a := range []int{1, 2, 5, 9} {
+				cf0, cg0 := atomic.LoadInt64(&cf), atomic.LoadInt64(&cg)
 				rf, rg := f.Call(a), g.Call(a)
+				nf, ng := atomic.LoadInt64(&cf)-cf0, atomic.LoadInt64(&cg)-cg0
 				rep.Eval(2)
+				known := false
+				for _, x := range []struct {
+					t      *ZooTarget
+					c      *int64
+					e, got int
+					n      int64
+				}{{f, &cf, ef[a], rf, nf}, {g, &cg, eg[a], rg, ng}} {
+					x := x
+					if x.got != tr(x.e) && zooReentered(x.e, x.got, x.n, func() (int, int64) {
+						c1 := atomic.LoadInt64(x.c)
+						r := x.t.Call(a)
+						return r, atomic.LoadInt64(x.c) - c1
+					}) {
+						atomic.AddInt64(&reentries, 1)
+						known = true
+						rep.Violate("C03/reentry-after-stack-growth", fmt.Sprintf("%s (%s), two live origins: calling the origin placeholder with little stack headroom re-entered the mock (callback ran %d times, result %d = T^%d(%d))", x.t.Name, x.t.Shape, x.n, x.got, x.n, x.e),
+							map[string]interface{}{"target": x.t.Name, "shape": x.t.Shape, "regime": "two-live-origins"})
+						if x.t == f {
+							rf = tr(ef[a])
+						} else {
+							rg = tr(eg[a])
+						}
+					}
+				}
+				_ = known
 				if rf != tr(ef[a]) || rg != tr(eg[a]) {
 					rep.Violate("C03/origin-wrong-result", fmt.Sprintf("%s and %s mocked at the same time, each with its own placeholder: %s(%d) = %d want %d, %s(%d) = %d want %d", f.Name, g.Name, f.Name, a, rf, tr(ef[a]), g.Name, a, rg, tr(eg[a])),
 						map[string]interface{}{"regime": "two-live-origins", "f": f.Name, "g": g.Name})
